@@ -89,6 +89,8 @@
 
 /* ---- ghost state ---- */
 bool g_desc;                                 /* comparator: descending instead of ascending order of the key byte */
+bool g_boolcmp;                              /* comparator style: the header allows "positive if b has higher priority, otherwise
+                                              * negative OR ZERO", i.e. also `return a > b;` (0/1 only, never negative) */
 struct aws_priority_queue_node g_nodes[PQK]; /* handle pool (arena, DESIGN §4.5) */
 struct aws_allocator g_pq_alloc;             /* the allocator of dynamic queues (only its address matters) */
 size_t g_pj;
@@ -110,7 +112,7 @@ struct aws_allocator *g0_alloc;
 #define PQ_RANKOF(k) ((uint8_t)(g_desc ? ~(k) : (k)))
 int pq_rank_cmp(const void *a, const void *b) {
     int ra = PQ_RANKOF(*(const uint8_t *)a), rb = PQ_RANKOF(*(const uint8_t *)b);
-    return ra - rb;
+    return g_boolcmp ? (ra > rb) : ra - rb;
 }
 
 /* ---- accessors ---- */
